@@ -420,3 +420,106 @@ class FakeClock(object):
             setattr(m, k, v)
         self._saved = []
         return False
+
+
+# ---------------------------------------------------------------- owned task scheduler
+
+class OwnedExecutor(object):
+    """Replaces concurrent.futures executors (and the module itself) as seen by netconan's modules
+    with one that runs the submitted tasks to completion, one at a time, in an order the harness
+    chooses: `policy` in forward / reverse / rotate / evens-first.  `sites` = attributes replaced,
+    `tasks` = tasks run.  (Task-level schedules only: finer interleavings are not explored.)"""
+
+    def __init__(self, policy):
+        self.policy = policy
+        self.tasks = 0
+        self._saved = []
+
+    def _order(self, n):
+        idx = list(range(n))
+        if self.policy == "reverse":
+            return idx[::-1]
+        if self.policy == "rotate":
+            return idx[n // 2:] + idx[: n // 2]
+        if self.policy == "evens-first":
+            return idx[::2] + idx[1::2]
+        return idx
+
+    def __enter__(self):
+        import concurrent.futures as cf
+        import types
+
+        owner = self
+
+        class _Future(object):
+            def __init__(self, value=None, exc=None):
+                self._v, self._e = value, exc
+
+            def result(self, timeout=None):
+                if self._e is not None:
+                    raise self._e
+                return self._v
+
+            def exception(self, timeout=None):
+                return self._e
+
+            def done(self):
+                return True
+
+            def add_done_callback(self, fn):
+                fn(self)
+
+        class _Executor(object):
+            def __init__(self, *a, **k):
+                pass
+
+            def __enter__(self):
+                return self
+
+            def __exit__(self, *a):
+                return False
+
+            def shutdown(self, *a, **k):
+                pass
+
+            def submit(self, fn, *a, **k):
+                owner.tasks += 1
+                try:
+                    return _Future(fn(*a, **k))
+                except Exception as e:  # noqa
+                    return _Future(exc=e)
+
+            def map(self, fn, *iterables, **k):
+                items = list(zip(*iterables))
+                out = [None] * len(items)
+                for i in owner._order(len(items)):
+                    owner.tasks += 1
+                    out[i] = fn(*items[i])
+                return iter(out)
+
+        fake_cf = types.SimpleNamespace(**{k: getattr(cf, k) for k in dir(cf) if not k.startswith("__")})
+        fake_cf.ThreadPoolExecutor = _Executor
+        fake_cf.ProcessPoolExecutor = _Executor
+        fake_cf.as_completed = lambda fs, timeout=None: iter(list(fs))
+        fake_cf.wait = lambda fs, timeout=None, return_when=None: (set(fs), set())
+        import concurrent
+        for m in netconan_modules():
+            for k, v in list(vars(m).items()):
+                new = None
+                if v is cf.ThreadPoolExecutor or v is cf.ProcessPoolExecutor:
+                    new = _Executor
+                elif v is cf:
+                    new = fake_cf
+                elif v is concurrent:
+                    new = types.SimpleNamespace(futures=fake_cf)
+                if new is not None:
+                    self._saved.append((m, k, v))
+                    setattr(m, k, new)
+        self.sites = len(self._saved)
+        return self
+
+    def __exit__(self, *a):
+        for m, k, v in self._saved:
+            setattr(m, k, v)
+        self._saved = []
+        return False
